@@ -1119,8 +1119,10 @@ class _Srcs:
     """The collections an image may be derived from: dotted field -> 'map' | 'seq', plus (optionally) a recogniser
     `match(fa, expr, at) -> source text | None` for sources that are not a field (a section of the configuration)."""
 
-    def __init__(self, kinds, match=None):
+    def __init__(self, kinds, match=None, markers=()):
         self.kinds, self.match = dict(kinds), match
+        # a branch literal that mentions one of these only asks whether the source is there / non-empty
+        self.markers = tuple(markers) or tuple(self.kinds)
 
     def find(self, fa, e, at):
         if isinstance(e, ast.Attribute) and A.dotted(e) in self.kinds:
@@ -1229,7 +1231,13 @@ def _accumulated(fa, text, dstmt, dvalue, srcs, depth):
     loop = fa.enclosing(m, (ast.For, ast.While))
     if not isinstance(loop, ast.For) or fa.enclosing(loop, (ast.For, ast.While)) is not None or loop.orelse:
         return None
-    if fa.conditions(loop) != fa.conditions(dstmt):
+    # the loop runs whenever the empty container was created — except under tests of the source itself (`if K in config`,
+    # `if self.x:`), under which skipping the loop leaves exactly the empty image
+    lc, dc = fa.conditions(loop), fa.conditions(dstmt)
+    if lc is None or dc is None:
+        return None
+    lc = {frozenset(l for l in c if not any(mk in l[0] for mk in srcs.markers)) for c in lc}
+    if lc != dc:
         return None
     mid, hid, did = fa.nodes(m), fa.nodes(loop), fa.nodes(dstmt)
     if not mid or not hid or not did:
@@ -1497,7 +1505,79 @@ def check_nested_dumps(ck, R, reads_of):
                     why = "the entry %r holds `%s` for each element, not the element's own to_dict()" % (en.key, show(img.val))
             ck.ob(R, key, why is None, "%s (%s) is dumped as its structural image" % (src, what) if why is None else
                   "to_dict does not dump %s (%s) as its structural image: %s" % (src, what, why), td.where(at_stmt))
+            if kind == "map" and len(keys_in) == 1:
+                _nested_load(ck, R, cls, init, field, ec, next(iter(keys_in)))
     ck.need(n >= 4, "nested-dump rule: only %d fields holding configured objects recognised" % n)
+
+
+def _section_reader(key):
+    """Recogniser for `<configuration>.get(key[, {}])` / `<configuration>[key]` / `... or {}` (through temporaries)."""
+    src = "config[%r]" % key
+
+    def match(fa, e, at):
+        try:
+            x = fa.expand(e, at)
+        except AnalysisError:
+            x = e
+        x = _strip_default(x)
+        if isinstance(x, ast.IfExp) and (_is_empty_dict(x.orelse) or _is_empty_dict(x.body)):
+            x = x.body if _is_empty_dict(x.orelse) else x.orelse
+        k = recv = None
+        if isinstance(x, ast.Call) and A.call_attr(x) == "get" and x.args and (len(x.args) == 1 or _is_empty_dict(x.args[1]) or A.is_none(x.args[1])):
+            k, recv = A.const_str(x.args[0]), A.call_recv(x)
+        elif isinstance(x, ast.Subscript) and not isinstance(x.slice, ast.Slice):
+            k, recv = A.const_str(x.slice), x.value
+        if k != key or recv is None:
+            return None
+        return src if A.norm(_strip_default(recv)) in ("config", "self.config") else None
+
+    return src, match
+
+
+def _nested_load(ck, R, cls, init, field, ec, cfg_key):
+    """The mirror of the dump clause on the reading side: the constructor registers one object per entry of the
+    configured section, under the key the entry has there (that key is the name get_cluster resolves), built from
+    the configuration given for that key."""
+    src, match = _section_reader(cfg_key)
+    srcs = _Srcs({src: "map"}, match, markers=(repr(cfg_key),))
+    tgt = "self." + field
+    why = None
+    where = init.where()
+    n_img = 0
+    for s in init.stmts(ast.Assign):
+        if not any(A.dotted(t) == tgt for t in s.targets) or not init.nodes(s):
+            continue
+        at = init.nodes(s)[0]
+        for b in _branches(s.value):
+            if why or (isinstance(b, ast.Name) and b.id in init.fi.params) or A.is_none(b):
+                continue
+            if (_is_empty_dict(b) and _content_mutations(init, tgt)):
+                img = _accumulated(init, tgt, s, b, srcs, 8)
+            else:
+                img = _image(init, b, at, {}, srcs)
+            if img is None:
+                if _is_empty_dict(b) and not _content_mutations(init, tgt):
+                    continue
+                raise AnalysisError("%s: `%s` fills %s from the configuration in a way this rule cannot decide" % (init.qual, A.short(s, 60), tgt))
+            n_img += 1
+            where = init.where(s)
+            show = lambda x: A.norm(x).replace(_KEY, "<key>").replace(_VAL, "<section of that key>")
+            v = img.val
+            if img.kind != "map":
+                why = "`%s` is not a mapping" % A.short(s, 50)
+            elif A.norm(img.key) != _KEY:
+                why = "each %s is registered under `%s`, not under the key it has in the %r section of the configuration: the configured name " \
+                      "does not resolve (get_cluster looks names up by registration key), and a rebuilt environment differs from the dumped one" \
+                      % (ec.name, show(img.key), cfg_key)
+            elif not img.total:
+                why = "not every entry of the %r section is registered: %s" % (cfg_key, img.why or "entries are skipped")
+            elif not (isinstance(v, ast.Call) and A.call_dotted(v) == ec.name and any(isinstance(x, ast.Name) and x.id == _VAL for a_ in v.args + [k.value for k in v.keywords] for x in ast.walk(a_))):
+                why = "the object registered under a key is `%s`, not a %s built from the configuration given for that key" % (show(v), ec.name)
+    if not why and not n_img:
+        why = "no statement fills %s from the %r section of the configuration" % (tgt, cfg_key)
+    ck.ob(R, "%s::nested-load::%s" % (cls.qual, field), why is None,
+          "%s registers one %s per entry of the configured %r section, under the entry's key" % (tgt, ec.name, cfg_key) if why is None else
+          "the constructor does not rebuild %s as the image of the configured %r section: %s" % (tgt, cfg_key, why), where)
 
 
 # =====================================================================================================
